@@ -83,6 +83,10 @@ TLinkInject ==
   /\ E.obs.delivered = 0
   /\ (lk.open => ((E.obs.dropped \/ E.obs.esc # "") /\ E.obs.closes = 1))     \* transport closed, session told
   /\ lk' = Half(lk.maxSend, lk.maxRecv, FALSE)
+\* the session's onOpen fails although the transport handshake was fine: no session is attached, the transport is closed,
+\* nothing escapes to the framework
+TLinkOpenFails == /\ Ev("link_openfails") /\ ~lk.on /\ UNCHANGED lk
+                  /\ E.obs.esc = "" /\ E.obs.attached = 0 /\ E.obs.dropped
 TLinkEnd == Ev("link_end") /\ lk.on /\ lk.t = "half" /\ E.obs.opens = 1 /\ E.obs.closes = 1 /\ lk' = NoLink
 
 \* ---- message phase, a real client and a real server
@@ -102,14 +106,17 @@ TPairRx ==
      /\ E.obs.intact
      /\ (lk.alive => (k = Len(q) /\ E.obs.esc = ""))             \* and complete while both ends live
      /\ lk' = IF frm = "C" THEN Pair(SubSeq(q, k + 1, Len(q)), lk.qS, lk.alive) ELSE Pair(lk.qC, SubSeq(q, k + 1, Len(q)), lk.alive)
-WantCode(kind) == IF kind = "sessionraises" THEN 1011 ELSE 1002
+\* failures of the session's own code are internal (1011), what the peer sent wrong is a protocol violation (1002); a message
+\* that is well-formed but names something that is no URI may be reported as either
+WantCodes(kind) == IF kind \in {"sessionraises", "sessionpayload", "sessionser"} THEN {1011}
+                   ELSE IF kind = "baduri" THEN {1002, 1011} ELSE {1002}
 WantReason(kind) == IF kind = "sessionraises" THEN "internal" ELSE "protocol"
 TPairInject ==
   /\ Ev("pair_inject") /\ lk.on /\ lk.t = "pair"
   /\ E.obs.delivered = 0
   /\ IF E.tkind = "rs" THEN (E.obs.dropped \/ E.obs.esc # "")                                \* RawSocket: abort (or the framework drops)
      ELSE IF E.fbd THEN E.obs.dropped                                                         \* WebSocket, fail by drop (no status on the wire)
-          ELSE E.obs.code = WantCode(E.kind)                                                 \* WebSocket, closing handshake
+          ELSE E.obs.code \in WantCodes(E.kind)                                                \* WebSocket, closing handshake
   /\ lk' = Pair(lk.qC, lk.qS, FALSE)
 TPairLose == Ev("pair_lose") /\ lk.on /\ lk.t = "pair" /\ lk' = Pair(lk.qC, lk.qS, FALSE)
 TPairEnd == /\ Ev("pair_end") /\ lk.on /\ lk.t = "pair" /\ lk' = NoLink
@@ -121,7 +128,7 @@ TStream == /\ Ev("stream") /\ UNCHANGED lk
            /\ E.obs.delivered = E.count /\ E.obs.intact
            /\ E.obs.opens = 1 /\ E.obs.closes = 1
 TScenario == Ev("scenario") /\ UNCHANGED lk          \* the script that produced the following events (for replay files)
-TNext == TScenario \/ TStream \/ TRsHs \/ TWsNeg \/ TLinkOpen \/ TLinkSend \/ TLinkRecv \/ TLinkInject \/ TLinkEnd
+TNext == TLinkOpenFails \/ TScenario \/ TStream \/ TRsHs \/ TWsNeg \/ TLinkOpen \/ TLinkSend \/ TLinkRecv \/ TLinkInject \/ TLinkEnd
          \/ TPairOpen \/ TPairSend \/ TPairRx \/ TPairInject \/ TPairLose \/ TPairEnd
 TraceSpec == TInit /\ [][TNext]_tvars
 Progress == TLCSet(tid, IF TLCGet(tid) < l THEN l ELSE TLCGet(tid))
